@@ -88,9 +88,14 @@ def tokenChar (b : UInt8) : Bool := 0x21 ≤ b && b ≤ 0x7E && b != 0x3A
 
 def fieldNameOK (k : Bytes) : Bool := !k.isEmpty && k.all tokenChar
 
-/-- field values: printable ASCII, no blank at either end -/
+/-- field values: TEXT of RFC 2326 §15.1 without controls — printable ASCII and any byte above
+    0x7F (UTF-8, ISO 8859-1) — that begins and ends with a printable ASCII character other
+    than blank (white space around a value is not part of it; values whose first or last
+    character is not ASCII are outside this grammar) -/
 def fieldValueOK (v : Bytes) : Bool :=
-  v.all (fun b => 0x20 ≤ b && b ≤ 0x7E) && v.head? != some 0x20 && v.getLast? != some 0x20
+  v.all (fun b => (0x20 ≤ b && b ≤ 0x7E) || 0x80 ≤ b) &&
+  (match v.head? with | some b => 0x21 ≤ b && b ≤ 0x7E | none => true) &&
+  (match v.getLast? with | some b => 0x21 ≤ b && b ≤ 0x7E | none => true)
 
 /-- Request-URI on the wire: non-empty, printable ASCII without blanks (what `URL.String()` emits) -/
 def uriOK (u : Bytes) : Bool := !u.isEmpty && u.all (fun b => 0x21 ≤ b && b ≤ 0x7E)
